@@ -96,6 +96,13 @@ func genC05(r *Rnd, t Tier) *Case {
 	c := &Case{Sc: sc}
 	if !concurrent {
 		c.Cfg = simrtSerial()
+	} else {
+		// concurrent callers may also be descheduled in the middle of a call (between reading the clock and taking the lock)
+		c.Cfg = swarmConfig(r, r.U64(), 100)
+		if r.P(0.6) {
+			c.Cfg.StallP = pick(r, 0.03, 0.1)
+			c.Cfg.StallDurs = []time.Duration{1, slot / 2, slot, slot + 1, 3 * slot}
+		}
 	}
 	return c
 }
@@ -292,7 +299,7 @@ func checkC05(c *checkCtx) {
 		c.cov("c05.concurrent_histories")
 		checkLimiterLinearizable(c, p, ops)
 		for _, op := range ops {
-			if op.out >= 0 {
+			if op.out >= 0 && op.t == op.retT {
 				grants = append(grants, grant{op.t + op.out, op.k})
 			}
 		}
@@ -317,33 +324,89 @@ func waitStr(d time.Duration) string {
 }
 
 type rlIn struct {
-	k       int
-	maxWait time.Duration
-	t       time.Duration
+	k        int
+	maxWait  time.Duration
+	t0, t1   time.Duration // the call read the clock somewhere between its invocation and its return
 	blocking bool
+}
+
+// stepInterval returns the model states reachable by a request whose clock
+// reading lies in [in.t0, in.t1] and whose answer was out.
+func stepInterval(m *rlModel, slot time.Duration, in rlIn, out time.Duration) []*rlModel {
+	var res []*rlModel
+	add := func(t time.Duration) {
+		if t < in.t0 || t > in.t1 {
+			return
+		}
+		c := m.clone()
+		want := c.request(t, in.k, in.maxWait)
+		ok := false
+		if in.blocking {
+			ok = (out == -1) == (want == -1) && (want == -1 || t+want <= in.t1)
+		} else {
+			ok = out == want
+		}
+		if !ok {
+			return
+		}
+		for _, r := range res {
+			if r.equal(c) {
+				return
+			}
+		}
+		res = append(res, c)
+	}
+	for q := int64(in.t0) / int64(slot); q <= int64(in.t1)/int64(slot); q++ {
+		lo := time.Duration(q * int64(slot))
+		if lo < in.t0 {
+			lo = in.t0
+		}
+		hi := time.Duration((q+1)*int64(slot) - 1)
+		if hi > in.t1 {
+			hi = in.t1
+		}
+		add(lo)
+		add(hi)
+		// the instant at which the answer would be exactly out, if the wait is positive
+		if out > 0 {
+			probe := m.clone()
+			if w := probe.request(lo, in.k, -1); w >= 0 {
+				add(lo + w - out)
+			}
+		}
+	}
+	return res
 }
 
 func checkLimiterLinearizable(c *checkCtx, p *PolicySpec, ops []rlOp) {
 	if len(ops) > 24 {
 		ops = ops[:24]
 	}
-	model := porcupine.Model{
-		Init: func() interface{} { return newRlModel(p) },
-		Step: func(state, input, output interface{}) (bool, interface{}) {
-			m := state.(*rlModel).clone()
-			in := input.(rlIn)
-			out := output.(time.Duration)
-			want := m.request(in.t, in.k, in.maxWait)
-			if in.blocking {
-				return (out == -1) == (want == -1), m
+	slot := p.Interval
+	if !p.Smooth {
+		slot = p.Period
+	}
+	nm := porcupine.NondeterministicModel{
+		Init: func() []interface{} { return []interface{}{newRlModel(p)} },
+		Step: func(state, input, output interface{}) []interface{} {
+			next := stepInterval(state.(*rlModel), slot, input.(rlIn), output.(time.Duration))
+			out := make([]interface{}, len(next))
+			for i, n := range next {
+				out[i] = n
 			}
-			return out == want, m
+			return out
 		},
 		Equal: func(a, b interface{}) bool { return a.(*rlModel).equal(b.(*rlModel)) },
 	}
+	model := nm.ToModel()
 	var hist []porcupine.Operation
 	for _, op := range ops {
-		hist = append(hist, porcupine.Operation{ClientId: op.task, Input: rlIn{op.k, op.maxWait, op.t, op.out == -2 || op.kind == "rl.acquire" || op.kind == "exec"}, Call: op.call, Output: op.out, Return: op.ret})
+		blocking := op.kind == "rl.acquire" || op.kind == "exec"
+		out := op.out
+		if blocking && out != -1 {
+			out = 0
+		}
+		hist = append(hist, porcupine.Operation{ClientId: op.task, Input: rlIn{k: op.k, maxWait: op.maxWait, t0: op.t, t1: op.retT, blocking: blocking}, Call: op.call, Output: out, Return: op.ret})
 	}
 	res := porcupine.CheckOperationsTimeout(model, hist, 10*time.Second)
 	switch res {
@@ -359,7 +422,7 @@ func checkLimiterLinearizable(c *checkCtx, p *PolicySpec, ops []rlOp) {
 func opsText(ops []rlOp) string {
 	s := ""
 	for _, op := range ops {
-		s += fmt.Sprintf("[task %d %s k=%d maxWait=%v t=%v -> %s] ", op.task, op.kind, op.k, op.maxWait, op.t, waitStr(op.out))
+		s += fmt.Sprintf("[task %d %s k=%d maxWait=%v t=%v..%v -> %s] ", op.task, op.kind, op.k, op.maxWait, op.t, op.retT, waitStr(op.out))
 	}
 	return s
 }
